@@ -196,6 +196,13 @@ def gen_kernels():
         txt = ("(* GENERATED: harness/pytrans_walk.py could not translate the current source: %s *)\n"
                "Definition translation_failed : True := untranslatable_source.\n" % str(ex).replace("*)", "* )"))
     _write_gen("WalkGen.v", txt)
+    import pytrans_atomline
+    try:
+        txt = pytrans_atomline.generate(REPO)
+    except pytrans_atomline.Unsupported as ex:
+        txt = ("(* GENERATED: harness/pytrans_atomline.py could not translate the current source: %s *)\n"
+               "Definition translation_failed : True := untranslatable_source.\n" % str(ex).replace("*)", "* )"))
+    _write_gen("AtomLineGen.v", txt)
 
 
 def _write_gen(fname, txt):
